@@ -1,6 +1,10 @@
 """./vf setup: offline sanity gate of the trusted base (tools present, libc
-models agree with glibc, reference decoder agrees with nasm/objdump)."""
+models agree with glibc, reference decoder agrees with nasm/objdump, kinds
+table reproducible).  Nothing here decides a property."""
+import json
+import os
 import shutil
+import subprocess
 import sys
 
 from . import core
@@ -8,8 +12,43 @@ from . import core
 
 def main():
     ok = True
-    for tool in ("cbmc", "goto-cc", "goto-instrument", "gcc", "nasm", "objdump"):
+    for tool in ("cbmc", "goto-cc", "goto-instrument", "gcc", "clang-14", "nasm", "objdump"):
         if not shutil.which(tool):
             core.log("setup: missing tool %s" % tool)
             ok = False
+    if not ok:
+        return 1
+    wd = core.workdir("vf-setup")
+    # libc models vs glibc
+    exe = os.path.join(wd, "tlm")
+    core.must(["gcc", "-O1", "-w", "-DVF_MODEL_NATIVE_TEST", os.path.join(core.VERIF, "tools", "test_libc_models.c"),
+               os.path.join(core.CDIR, "libc_models.c"), "-o", exe], limit=False)
+    rc, out, err, _, _ = core.run([exe, "100000", "7"], timeout=120, limit=False)
+    core.log(out.strip().splitlines()[-1] if out.strip() else "libc model test produced no output")
+    if rc != 0:
+        core.log(out[-1500:])
+        ok = False
+    # reference decoder vs nasm / objdump
+    r = subprocess.run([sys.executable, os.path.join(core.VERIF, "tools", "validate_x86dec.py"), "6", "11"],
+                       stdout=subprocess.PIPE, stderr=subprocess.STDOUT, universal_newlines=True)
+    core.log(r.stdout.strip().splitlines()[-1] if r.stdout.strip() else "x86dec validation produced no output")
+    if r.returncode != 0:
+        core.log(r.stdout[-2000:])
+        ok = False
+    # kinds table reproducible with the installed nasm
+    tmp = os.path.join(wd, "kinds.json")
+    r = subprocess.run([sys.executable, os.path.join(core.VERIF, "tools", "gen_kinds.py"), tmp], stdout=subprocess.PIPE, stderr=subprocess.STDOUT, universal_newlines=True)
+    try:
+        same = json.load(open(tmp)) == json.load(open(os.path.join(core.VERIF, "spec", "kinds.json")))
+    except Exception:
+        same = False
+    core.log("kinds table %s" % ("reproduced" if same else "DIFFERS from spec/kinds.json"))
+    ok = ok and same
+    # the repository builds with goto-cc
+    try:
+        core.build_lib(wd, "probe")
+        core.log("goto-cc build of /repo/src ok")
+    except core.MachineryError as e:
+        core.log("goto-cc build failed: %s" % str(e)[-800:])
+        ok = False
     return 0 if ok else 1
